@@ -1388,9 +1388,10 @@ class ServiceClass:
                 # Failure: Cannot Understand - callback returned
                 #   a pydicom.dataset.Dataset without a Status element
                 rsp.Status = 0xC001
-        elif isinstance(status, int):
+        elif isinstance(status, int) and 0 <= status <= 0xFFFF:
             rsp.Status = status
         else:
+            # Not a Dataset or an int, or outside the range of a US value
             LOGGER.error("Invalid status returned by callback")
             # Failure: Cannot Understand - callback didn't return
             #   a valid status type
